@@ -229,7 +229,7 @@ def run(index, rep, tier):
 
     # ---- R07.8
     with rep.section("R07.8"):
-        rep.rule("R07.8", "the depth the midpoint search compares is one quantity for every node: in Node.distance_from_root every live return taken by a node that has a parent and a length goes through the ancestor walk (a comparison of a bound method with None is a dead test and its branch is ignored)")
+        rep.rule("R07.8", "the depth the midpoint search compares is one quantity for every node: in Node.distance_from_root every live return taken by a node that has a parent goes through the ancestor walk, whether or not the node has a length of its own (a comparison of a bound method with None is a dead test and its branch is ignored)")
         fi = index.function(TM + "_node.Node.distance_from_root")
         nk = index.klass(TM + "_node.Node")
         cfg = cfg_of(fi)
@@ -250,26 +250,29 @@ def run(index, rep, tier):
 
         def edge_ok(a, lab, b):
             return not (a.id in dead and dead[a.id] == lab) and lab != "e"
-        gates = [t for t in cfg.nodes if t.kind == "test" and isinstance(t.ast, ast.Compare) and norm(t.ast.left) == "self.edge.length" and is_none(t.ast.comparators[0]) and isinstance(t.ast.ops[0], (ast.NotEq, ast.IsNot))
-                 and cfg.dominated_by(t, lambda n: n.kind == "test" and norm(n.ast) == "self._parent_node", edge_ok=lambda a, lab, b: not (a.kind == "test" and norm(a.ast) == "self._parent_node" and lab == "f"))]
-        gates = [t for t in gates if cfg.can_reach(cfg.entry, lambda n: n is t, edge_ok=lambda a, lab, b: lab != "e" and not (a.kind == "test" and norm(a.ast) == "self._parent_node" and lab == "f"), skip_src=False)]
-        gates = gates[:1]
-        if not gates:
-            raise AnalysisError("R07.8: the has-parent-and-length branch of Node.distance_from_root not recognised")
-        walks = [n for n in cfg.nodes if n.kind in ("test", "loop") and isinstance(n.stmt, ast.While) and any(isinstance(a, ast.Assign) and isinstance(a.value, ast.Attribute) and a.value.attr in ("_parent_node", "parent_node") and norm(a.targets[0]) == norm(a.value.value) for a in ast.walk(n.stmt))]
+        walks = [n for n in cfg.nodes if n.kind in ("test", "loop", "join") and isinstance(n.stmt, ast.While) and any(isinstance(a, ast.Assign) and isinstance(a.value, ast.Attribute) and a.value.attr in ("_parent_node", "parent_node") and norm(a.targets[0]) == norm(a.value.value) for a in ast.walk(n.stmt))]
         if not walks:
             raise AnalysisError("R07.8: ancestor walk of Node.distance_from_root not recognised")
         walk_ids = {n.id for n in walks}
-        starts = [b for lab, b in gates[0].succ if lab == "t"]
-        seen = cfg.reach(starts, avoid=lambda n: n.id in walk_ids, follow_exc=False, edge_ok=edge_ok)
+
+        def has_parent(a, lab, b):
+            # the paths a node WITH a parent can take: the false edge of a test of its parent link is not one of them
+            if a.kind == "test" and norm(a.ast) in ("self._parent_node", "self.parent_node") and lab == "f":
+                return False
+            if a.kind == "test" and isinstance(a.ast, ast.Compare) and len(a.ast.ops) == 1 and norm(a.ast.left) in ("self._parent_node", "self.parent_node") and is_none(a.ast.comparators[0]):
+                if (isinstance(a.ast.ops[0], (ast.Is, ast.Eq)) and lab == "t") or (isinstance(a.ast.ops[0], (ast.IsNot, ast.NotEq)) and lab == "f"):
+                    return False
+            return edge_ok(a, lab, b)
+        seen = cfg.reach([cfg.entry], avoid=lambda n: n.id in walk_ids, follow_exc=False, edge_ok=has_parent)
+        live = cfg.reach([cfg.entry], follow_exc=False, edge_ok=has_parent)
         nret = 0
         for n in cfg.nodes:
-            if isinstance(n.stmt, ast.Return) and n.kind == "stmt" and cfg.can_reach(gates[0], lambda x: x is n, edge_ok=edge_ok):
+            if isinstance(n.stmt, ast.Return) and n.kind == "stmt" and n in live:
                 nret += 1
                 short = any(x is n for x in seen)
                 rep.check(not short, "R07.8", fi.qualname, "return `%s` skips the ancestor walk" % norm(n.stmt.value)[:40], fn_where(fi, n.stmt), "distance_from_root: `return %s` follows the ancestor walk" % norm(n.stmt.value)[:40],
-                          "Node.distance_from_root returns `%s` for a node with a parent and a length without walking its ancestors, while other nodes get the sum over all ancestor edges including the root's own: the two depths reroot_at_midpoint compares to decide which of the most distant leaves to climb from are then different quantities, and with a root edge length the climb starts from the wrong leaf and never meets the midpoint" % norm(n.stmt.value)[:60])
-        rep.floor("R07.8", "live returns of the weighted branch of distance_from_root", 1, nret)
+                          "Node.distance_from_root returns `%s` for a node that has a parent without walking its ancestors, while other nodes get the sum over all ancestor edges including the root's own: the depths reroot_at_midpoint compares to decide which of the most distant leaves to climb from are then different quantities (a node without a length of its own is given its parent's length only, and float(None) is raised when that is missing too), so the climb can start from the wrong leaf" % norm(n.stmt.value)[:60])
+        rep.floor("R07.8", "live returns of distance_from_root for a node with a parent", 1, nret)
         rep.note("R07.8 dead tests ignored: %s" % ", ".join("`%s` (never %s)" % (norm(t.ast), "true" if dead[t.id] == "t" else "false") for t in cfg.nodes if t.id in dead))
 
     # ---- R07.5
